@@ -103,8 +103,12 @@ def layer2(chk, tier, only=None):
     todo = [n for n, r in infos.items() if r["ok"]]
     if not todo:
         raise ToolError("L2: no LibfuncSound instance could be generated")
-    if len(not_generated) > len(infos) // 3:
-        raise ToolError(f"L2: {len(not_generated)} of {len(infos)} instances could not be generated")
+    if not_generated:
+        # on the pinned tree every instance compiles and is in the supported CASM fragment; a wrapper that
+        # no longer compiles (e.g. the compiler's own cost validation panics) or leaves the fragment is not
+        # a verdict about C03 but must not pass silently
+        raise ToolError(f"L2: {len(not_generated)} of {len(infos)} instances could not be generated: "
+                        f"{list(not_generated.items())[:3]}")
     for n in todo:
         for m in ("CairoAir.tla", "IntOpsPost.tla"):
             shutil.copy(os.path.join(SPEC, m), os.path.join(infos[n]["dir"], m))
